@@ -197,8 +197,16 @@ def _signal():
 
 
 class LThread:
+    @property
+    def ltid(self):
+        return self.lstack[-1]
+
     def __init__(self, tid, fn):
-        self.tid = tid
+        self.tid = tid              # the OS-level logical thread
+        self.lstack = [tid]         # logical thread ids: a request made while dispatching (INSPECT inside _unbox) runs as a
+                                    # fresh logical thread on top of this one (the locks have no owner, so that is what
+                                    # the nested call is); lstack[-1] is the id all tokens carry
+        self.in_factory = False     # inside Connection._netref_factory (the INSPECT round trip of a user-class reference)
         self.fn = fn
         self.go = _signal()
         self.state = "new"          # new | line | blocked | done
@@ -260,13 +268,13 @@ class Sched:
         return getattr(self.local, "th", None)
 
     def log(self, th, label, obs=None):
-        tok = "run:%d:%s" % (th.tid, label) + ("" if obs is None else ":" + str(obs))
-        self.events.append((len(self.trace), th.tid, label, obs, self.now))
+        tok = "run:%d:%s" % (th.ltid, label) + ("" if obs is None else ":" + str(obs))
+        self.events.append((len(self.trace), th.ltid, label, obs, self.now))
         self.trace.append(tok)
         th.acted += 1
 
     def log_env(self, tok, label, obs=None, th=None):
-        self.events.append((len(self.trace), None if th is None else th.tid, label, obs, self.now))
+        self.events.append((len(self.trace), None if th is None else th.ltid, label, obs, self.now))
         self.trace.append(tok)
         if th is not None:
             th.acted += 1
@@ -333,7 +341,10 @@ class Sched:
                     obs = ("exit" if t.expired() else "loop") if isinstance(t, Timeout) else "?"
                     self.log(th, label, obs)
                 elif when == "pre":
-                    self.log(th, label, self._observe_pre(label, frame))
+                    obs = self._observe_pre(label, frame)
+                    self.log(th, label, obs)
+                    if len(th.lstack) > 1 and (label == "w10" or (label == "w9" and obs == "notready")):
+                        self.run.end_logical(th, "timeout" if label == "w9" else "value:" + str(obs))
                     if label == "d5":
                         th.pending[frame] = ("d5", ("published", self.run.seq_of(frame.f_locals.get("self"))))
                 else:
@@ -461,7 +472,7 @@ class SLock:
         if blocking and self.holder is not None:
             s.block(th, "recvlock", lambda: self.holder is None, None)
         if self.holder is None:
-            self.holder = th.tid
+            self.holder = th.ltid
             th.phase = "s2ok"
             th.spun = False
             s.log(th, "s2", "ok")
@@ -544,12 +555,13 @@ class SCond:
             raise Abort()
         deadline = None if timeout is None else s.now + timeout
         s.log(th, "s2w", fmt_t(deadline))
-        self.waiters.append(th.tid)
+        me = th.ltid
+        self.waiters.append(me)
         self.holder = None
         th.phase = "zz"
-        s.block(th, "cond", lambda: th.tid not in self.waiters, deadline)
-        if th.tid in self.waiters:
-            self.waiters.remove(th.tid)
+        s.block(th, "cond", lambda: me not in self.waiters, deadline)
+        if me in self.waiters:
+            self.waiters.remove(me)
             s.log(th, "zz", "timeout")
             res = False
         else:
@@ -627,7 +639,7 @@ class SChan:
         th.hand = fid
         if th.win_depth is None:
             th.win_depth = th.depth
-        self.run.received.append((fid, th.tid))
+        self.run.received.append((fid, th.ltid))
         s.log(th, "p0", fid)
         return data
 
@@ -644,7 +656,7 @@ class SChan:
         self.run.handler_of[seq] = args[0]
         if th.win_depth is not None and not th.in_close:
             th.win_suspended = True
-            self.run.nested_requests.append((th.tid, seq, args[0]))
+            self.run.nested_requests.append((th.tid, seq, args[0], len(s.trace)))
         if th is not None and th.in_close:
             if self.closed:
                 raise EOFError("stream has been closed")
@@ -654,7 +666,7 @@ class SChan:
             th.phase = "c2closed"
             raise EOFError("stream has been closed")
         self.run.outstanding.append(seq)
-        self.run.sent_requests.append((th.tid, seq))
+        self.run.sent_requests.append((th.ltid, seq))
         s.log(th, "c2", seq)
 
     def close(self):
@@ -676,9 +688,14 @@ class LoggingCounter:
         v = next(self.real)
         th = self.sched.cur()
         if th is not None and not self.sched.aborting and not th.in_close:
-            tmo = self.run.current_tmo.get(th.tid)
-            self.run.issued.append((th.tid, v))
-            self.sched.log_env("call:%d:%s:%d" % (th.tid, "n" if tmo is None else tmo, v), "call", (th.tid, v), th)
+            if th.in_factory and th.win_depth is not None:
+                # the INSPECT round trip of _unbox, made by a thread that is dispatching a frame: a fresh logical thread
+                lt = self.run.new_logical(th)
+                th.lstack.append(lt)
+            me = th.ltid
+            tmo = self.run.current_tmo.get(me)
+            self.run.issued.append((me, v))
+            self.sched.log_env("call:%d:%s:%d" % (me, "n" if tmo is None else tmo, v), "call", (me, v), th)
         return v
 
 
@@ -731,7 +748,10 @@ class Run:
                 dup=[seqs whose reply the peer sends twice]  (oracle search only; outside the model))
                 pollers=[[d | "ready", ...], ...]  one program per polling thread (conn.poll_all(d) / AsyncResult.ready),
                 eof=bool (the peer may close the stream), early_tick=bool,
-                byref=bool (results travel by reference: proxies of remote lists), logger=bool (config["logger"] with DEBUG
+                byref=True|"user" (results travel by reference: proxies of remote lists / of instances of a user class,
+                whose first proxy costs an INSPECT round trip inside _unbox), mute=[client tids the peer never answers:
+                a caller without expiry whose request stays unanswered is a `serve(None)` receiver, as serve_all is],
+                callbacks=bool (callers register a callback on their AsyncResult), logger=bool (config["logger"] with DEBUG
                 enabled and a real handler), dispatcher_priority=bool (schedule family, see execute)
     Thread ids: clients 1..n, polling threads n+1..n+m, background thread n+m+1.
     """
@@ -754,6 +774,10 @@ class Run:
         self.current_poll = {}
         self.handler_of = {}        # seq -> handler id of the request (answers to REPR/STR must be strings)
         self.nested_requests = []   # (tid, seq, handler): requests a thread sent while dispatching a received frame
+        self.callback_log = []      # (tid, id(AsyncResult)) per callback invocation
+        self.callback_expected = []
+        self.n_logical = 0
+        self.logical_owner = {}     # logical thread id -> OS-level thread that runs it
         self.keepalive = []         # by-reference results, kept until the end of the run (their finalizers send DEL)
         self.results = {}           # tid -> list of (seq, outcome text, return time)
         self.completions = {}       # seq -> count of _is_ready stores
@@ -783,6 +807,8 @@ class Run:
             return object.__getattribute__(obj, "____id_pack__")[1]
         if type(obj) is str and obj[:1] == "R" and obj[1:].isdigit():
             return int(obj[1:])
+        if type(obj) is tuple and obj and type(obj[0]) is tuple and obj[0]:
+            return Run.payload_of(obj[0][0])
         if isinstance(obj, BaseException):
             try:
                 return int(obj.args[0])
@@ -803,19 +829,32 @@ class Run:
         mine = [q for (t, q) in self.issued if t == tid]
         return mine[-1] if len(mine) > len(self.results.get(tid, [])) else None
 
+    def new_logical(self, th):
+        self.n_logical += 1
+        lt = 50 + self.n_logical
+        self.current_tmo[lt] = self.conn._config["sync_request_timeout"]
+        self.logical_owner[lt] = th.tid
+        return lt
+
+    def end_logical(self, th, text):
+        """the nested call of the logical thread on top of `th` has returned (value / timeout)"""
+        lt = th.lstack.pop()
+        seq = [q for (t, q) in self.issued if t == lt][-1]
+        self.results.setdefault(lt, []).append((seq, text, self.sched.now))
+
     def note_blocked(self, th):
-        q = self.current_seq(th.tid)
+        q = self.current_seq(th.ltid)
         if q is None or q not in self.cells:
             return
         ready = bool(self.cells[q]._is_ready)
-        self.sched.log_env("chk:%d:%s" % (th.tid, "R" if ready else "-"), "chk", (th.tid, ready, th.kind))
+        self.sched.log_env("chk:%d:%s" % (th.ltid, "R" if ready else "-"), "chk", (th.ltid, ready, th.kind))
 
     def note_published(self, seq):
         s = self.sched
         w = self.owner_of(seq)
-        if w is None or w not in s.threads:
+        th = next((x for x in s.threads.values() if x.ltid == w), None)
+        if w is None or th is None:
             return
-        th = s.threads[w]
         if self.current_seq(w) == seq and th.state == "blocked" and th.kind in ("poll", "cond") and not s.enabled(th):
             s.log_env("chk:%d:R" % w, "chk", (w, True, th.kind))
 
@@ -843,7 +882,7 @@ class Run:
         def dispatch(data):
             th = s.cur()
             if th is not None and not s.aborting:
-                run.dispatched.append((th.hand, th.tid))
+                run.dispatched.append((th.hand, th.ltid))
                 s.log(th, "d0", "data")
                 th.phase = None
             return real_dispatch(data)
@@ -872,7 +911,14 @@ class Run:
         def netref_factory(id_pack):
             # keep every proxy alive until the end of the run: a dropped by-reference reply (no callback, expired) would
             # otherwise send its HANDLE_DEL notice from inside the dispatch, at a garbage-collection-dependent moment
-            proxy = real_factory(id_pack)
+            th = s.cur()
+            if th is not None:
+                th.in_factory = True
+            try:
+                proxy = real_factory(id_pack)
+            finally:
+                if th is not None:
+                    th.in_factory = False
             run.keepalive.append(proxy)
             return proxy
 
@@ -905,7 +951,11 @@ class Run:
                 self.current_tmo[tid] = tmo
                 n_before = len([1 for (t, _q) in self.issued if t == tid])
                 try:
-                    v = conn.async_request(consts.HANDLE_PING, "x", timeout=tmo).value
+                    res = conn.async_request(consts.HANDLE_PING, "x", timeout=tmo)
+                    if self.case.get("callbacks"):
+                        res.add_callback(lambda r, tid=tid: self.callback_log.append((tid, id(r))))
+                        self.callback_expected.append((tid, id(res), res))
+                    v = res.value
                     if BaseNetref in type(v).__mro__:
                         self.keepalive.append(v)
                         text = "value:0:%d" % self.payload_of(v)
@@ -965,12 +1015,17 @@ class Run:
         if handler in (consts.HANDLE_REPR, consts.HANDLE_STR):
             data = brine.dump((consts.MSG_REPLY, seq, (consts.LABEL_VALUE, "R%d" % val)))
             exc = False
+        elif handler == consts.HANDLE_INSPECT:
+            # the methods of the remote class, by value: ((name, doc), ...)
+            data = brine.dump((consts.MSG_REPLY, seq, (consts.LABEL_VALUE, (("R%d" % val, ""),))))
+            exc = False
         elif handler != consts.HANDLE_PING:
             data = brine.dump((consts.MSG_REPLY, seq, (consts.LABEL_VALUE, None)))
             exc = False
         elif self.case.get("byref") and not exc:
             # a result that travels by reference: the proxy of a remote list (builtin class: no INSPECT round trip)
-            data = brine.dump((consts.MSG_REPLY, seq, (consts.LABEL_REMOTE_REF, ("builtins.list", val, val))))
+            cls = "verif_remote.Thing" if self.case.get("byref") == "user" else "builtins.list"
+            data = brine.dump((consts.MSG_REPLY, seq, (consts.LABEL_REMOTE_REF, (cls, val, val))))
         elif exc:
             raw = vinegar.dump(ValueError, ValueError(val), None, include_local_traceback=False, include_local_version=False)
             data = brine.dump((consts.MSG_EXCEPTION, seq, raw))
@@ -1019,7 +1074,8 @@ class Run:
                     self.outcome = "horizon"
                     break
                 en = ["T%d" % t for t in s.order if s.enabled(s.threads[t])]
-                peer = [] if (clients_done or self.chan.eof) else ["P%d" % q for q in sorted(set(self.outstanding))]
+                muted = set(q for (t, q) in self.issued if t in self.case.get("mute", ()))
+                peer = [] if (clients_done or self.chan.eof) else ["P%d" % q for q in sorted(set(self.outstanding) - muted)]
                 if self.case.get("eof") and not self.chan.eof and not clients_done:
                     peer = peer + ["E"]
                 nd = s.next_deadline()
@@ -1059,10 +1115,14 @@ class Run:
                                   and not (th.is_bg and isinstance(th.exc, EOFError) and (self.chan.eof or self.chan.closed))}
             self.final_registered = sorted(dict.keys(self.conn._request_callbacks))
             self.in_call_status = []
-            for tid in range(1, n + 1):
+            for tid in sorted(set(t for (t, _q) in self.issued)):
                 mine = [q for (t, q) in self.issued if t == tid]
                 if len(mine) > len(self.results.get(tid, [])):
-                    th = s.threads[tid]
+                    th = s.threads[self.logical_owner.get(tid, tid)]
+                    if th.ltid != tid:
+                        self.in_call_status.append("%d/-/%s" % (tid, "R" if (self.cells.get(mine[-1]) is not None
+                                                                             and self.cells[mine[-1]]._is_ready) else "-"))
+                        continue
                     blocked = th.state == "blocked" and th.kind in ("poll", "cond") and not s.enabled(th)
                     cell = self.cells.get(mine[-1])
                     ready = bool(cell is not None and cell._is_ready)
@@ -1206,9 +1266,10 @@ class DirectedChooser:
         while self.k < len(self.script):
             item = self.script[self.k]
             if item[0] == "run":
-                _x, tid, label = item
+                _x, tid, label = item[:3]
+                watch = item[3] if len(item) > 3 else tid      # logical thread whose token is awaited (nested calls)
                 labels = label.split("|")
-                if any(e[1] == tid and e[2] in labels for e in ev[self.mark:]):
+                if any(e[1] == watch and e[2] in labels for e in ev[self.mark:]):
                     self._next(ev)
                     continue
                 if "T%d" % tid in opts:
@@ -1265,7 +1326,7 @@ def calls_of(run):
         k = per_tid.get(tid, 0)
         per_tid[tid] = k + 1
         calls = run.case["clients"][tid - 1] if 1 <= tid <= len(run.case["clients"]) else []
-        tmo = calls[k] if k < len(calls) else None
+        tmo = calls[k] if k < len(calls) else run.current_tmo.get(tid)
         res = run.results.get(tid, [])
         r = res[k] if k < len(res) else None
         t_issue = next((e[4] for e in ev if e[2] == "call" and e[3] == (tid, seq)), None)
@@ -1301,11 +1362,18 @@ def stalls_of(run):
         sig = None
         shape = ""
         r0s = [x for x in ev if x[1] == r and x[2] == "r0" and x[0] < i_d5]
-        nested = [x for x in ev if x[1] == r and x[2] == "c2" and r0s and r0s[-1][0] < x[0] < i_d5]
-        if r != w and nested:
+        nested = [n for n in run.nested_requests if n[0] == r and r0s and r0s[-1][0] < n[3] < i_d5]
+        inspect_only = bool(nested) and all(n[2] == consts.HANDLE_INSPECT for n in nested)
+        note = ""
+        if inspect_only:
+            # _unbox of a user-class reference: the INSPECT round trip lies between the lock hand-off and the publication;
+            # the stall is classified by its lock order like any other, the round trip only widens the window
+            note = " [the dispatcher's INSPECT round trip (seq %s) for a user-class reference lay inside the window]" % nested[0][1]
+        if r != w and nested and not inspect_only:
             sig = SIG_NESTED
             shape = ("between releasing the receive lock and publishing the result the dispatching thread sent a request of "
-                     "its own (seq %s) and waited for the answer; the woken waiter ran meanwhile" % (nested[0][3],))
+                     "its own (seq %s, handler %s) and waited for the answer; the woken waiter ran meanwhile"
+                     % (nested[0][1], nested[0][2]))
         elif r == w:
             sig = "C14:receiver==waiter:unexpected"
         elif not w0s:
@@ -1338,7 +1406,7 @@ def stalls_of(run):
                     continue
                 sig, shape = SIG_LATE, "waiter tested readiness before the dispatch, then failed the try-lock (held by a thread polling for other traffic) and sleeps on the condition; nobody notifies after the dispatch"
         out.append(dict(tid=w, seq=c["seq"], receiver=r, t_dispatch=t_d, t_return=c["t_return"], tmo=c["tmo"],
-                        blocked_in=e[3][2], signature=sig, shape=shape, at=e[0]))
+                        blocked_in=e[3][2], signature=sig, shape=shape + note, at=e[0], inspect=inspect_only))
     return out
 
 
@@ -1404,6 +1472,10 @@ def c13_violations(run):
                             "closed the stream" % (c["tid"], c["seq"])))
         else:
             out.append(("C13:unexpected-exception", "thread %d request %d: %s" % (c["tid"], c["seq"], res)))
+    for (tid, rid, res) in run.callback_expected:
+        n = run.callback_log.count((tid, rid))
+        if n > 1 or (n == 0 and res._is_ready and run.outcome == "finished"):
+            out.append(("C13:callback-count", "thread %d: the callback of a completed request ran %d times" % (tid, n)))
     for tid, err in sorted(getattr(run, "thread_errors", {}).items()):
         out.append(("C13:thread-died", "thread %d: %s" % (tid, err)))
     if run.outcome in ("deadlock", "horizon"):
@@ -1411,6 +1483,8 @@ def c13_violations(run):
         for c in calls_of(run):
             if c["result"] is not None:
                 continue
+            if c["tid"] in run.case.get("mute", ()) and not run.chan.eof:
+                continue            # the peer never answers this caller: it is a serve(None) receiver, by design
             if run.chan.eof:
                 # end of stream: every thread inside a call must terminate (EOFError); none may stay parked
                 out.append(("C13:parked-after-eof",
